@@ -34,6 +34,11 @@ var probes = []probe{
 	{"rename-locals", "every local variable, parameter, receiver and named result of every function is renamed", probeRenameLocals},
 	{"flip-if-else", "every if/else whose else branch is a plain block is rewritten as if !(cond) with the two branches swapped", probeFlipIfElse},
 	{"name-conditions", "every side-effect-free if condition of a plain block statement is first assigned to a fresh boolean local and then tested", probeNameConditions},
+	{"hoist-if-init", "every 'if init; cond' is rewritten as a block containing the init statement followed by 'if cond'", probeHoistIfInit},
+	{"range-to-index", "every range loop over a slice is rewritten as an index loop over a snapshot of the slice header", probeRangeToIndex},
+	{"switch-to-if", "every expression switch without break / fallthrough (and with a side-effect-free tag) is rewritten as an if / else-if chain", probeSwitchToIf},
+	{"if-to-switch", "every if / else-if chain of at least two conditions without break statements is rewritten as a tagless switch", probeIfToSwitch},
+	{"split-and", "every 'if a && b' without else is rewritten as two nested ifs", probeSplitAnd},
 }
 
 func applyEdits(src []byte, edits []textEdit) ([]byte, error) {
@@ -355,6 +360,394 @@ func runProbes(id string, base *Prog, baseRep *Report, r *Report, repo string) {
 }
 
 var _ = printer.Fprint
+
+// ---- hoist-if-init ----
+
+func probeHoistIfInit(p *Prog) (map[string][]byte, int, error) {
+	perFile := map[string][]textEdit{}
+	src := map[string][]byte{}
+	n := 0
+	for _, f := range p.sortedFiles() {
+		ast.Inspect(f, func(x ast.Node) bool {
+			bl, ok := x.(*ast.BlockStmt)
+			if !ok {
+				return true
+			}
+			for _, st := range bl.List {
+				is, ok := st.(*ast.IfStmt)
+				if !ok || is.Init == nil {
+					continue
+				}
+				initT, err := nodeText(p, src, is.Init)
+				if err != nil {
+					continue
+				}
+				tf, name := p.fileOf(is.Pos())
+				// "if init; cond {" -> "{ init\nif cond {" ... "}" + "}"
+				perFile[name] = append(perFile[name],
+					textEdit{tf.Offset(is.Pos()), tf.Offset(is.Cond.Pos()), "{\n" + initT + "\nif "},
+					textEdit{tf.Offset(is.End()), tf.Offset(is.End()), "\n}"})
+				n++
+			}
+			return true
+		})
+	}
+	ov, err := finishOverlay(p, perFile)
+	return ov, n, err
+}
+
+// ---- range-to-index ----
+
+func probeRangeToIndex(p *Prog) (map[string][]byte, int, error) {
+	perFile := map[string][]textEdit{}
+	src := map[string][]byte{}
+	n := 0
+	for _, f := range p.sortedFiles() {
+		ast.Inspect(f, func(x ast.Node) bool {
+			bl, ok := x.(*ast.BlockStmt)
+			if !ok {
+				return true
+			}
+			for _, st := range bl.List {
+				rs, ok := st.(*ast.RangeStmt)
+				if !ok || rs.Tok != token.DEFINE || p.synthRange[rs] {
+					continue
+				}
+				if _, isSlice := p.TypeOf(rs.X).Underlying().(*types.Slice); !isSlice {
+					continue
+				}
+				key, val := "", ""
+				if id, ok := rs.Key.(*ast.Ident); ok && id.Name != "_" {
+					key = id.Name
+				}
+				if rs.Value != nil {
+					if id, ok := rs.Value.(*ast.Ident); ok && id.Name != "_" {
+						val = id.Name
+					}
+				}
+				xT, err := nodeText(p, src, rs.X)
+				if err != nil {
+					continue
+				}
+				// the index variable is assigned by the loop: a body that assigns to the key would change the iteration
+				assignsKey := false
+				if key != "" {
+					ko := p.ObjOf(rs.Key.(*ast.Ident))
+					ast.Inspect(rs.Body, func(y ast.Node) bool {
+						switch z := y.(type) {
+						case *ast.AssignStmt:
+							for _, l := range z.Lhs {
+								if id, ok := l.(*ast.Ident); ok && p.ObjOf(id) == ko {
+									assignsKey = true
+								}
+							}
+						case *ast.IncDecStmt:
+							if id, ok := z.X.(*ast.Ident); ok && p.ObjOf(id) == ko {
+								assignsKey = true
+							}
+						case *ast.UnaryExpr:
+							if z.Op == token.AND {
+								if id, ok := z.X.(*ast.Ident); ok && p.ObjOf(id) == ko {
+									assignsKey = true
+								}
+							}
+						}
+						return true
+					})
+				}
+				if assignsKey {
+					continue
+				}
+				snap := fmt.Sprintf("rngPrb%d", n)
+				idx := key
+				if idx == "" {
+					idx = fmt.Sprintf("idxPrb%d", n)
+				}
+				head := "{\n" + snap + " := " + xT + "\nfor " + idx + " := 0; " + idx + " < len(" + snap + "); " + idx + "++ {"
+				if val != "" {
+					head += "\n" + val + " := " + snap + "[" + idx + "]"
+					// the value may be unused in the body only if it was "_"; it is named, so it is used
+				}
+				tf, name := p.fileOf(rs.Pos())
+				perFile[name] = append(perFile[name],
+					textEdit{tf.Offset(rs.Pos()), tf.Offset(rs.Body.Lbrace) + 1, head},
+					textEdit{tf.Offset(rs.End()), tf.Offset(rs.End()), "\n}"})
+				n++
+			}
+			return true
+		})
+	}
+	ov, err := finishOverlay(p, perFile)
+	return ov, n, err
+}
+
+// ---- switch-to-if / if-to-switch ----
+
+// hasLooseBreak: an unlabeled break (or a fallthrough / goto) in n that would bind to n itself
+// (i.e. not inside a nested for / switch / select / function literal).
+func hasLooseBreak(n ast.Node) bool {
+	found := false
+	var visit func(x ast.Node, top bool)
+	visit = func(x ast.Node, top bool) {
+		ast.Inspect(x, func(y ast.Node) bool {
+			if y == nil || found {
+				return false
+			}
+			if y != x {
+				switch y.(type) {
+				case *ast.ForStmt, *ast.RangeStmt, *ast.SwitchStmt, *ast.TypeSwitchStmt, *ast.SelectStmt, *ast.FuncLit:
+					// a labeled break inside may still target an outer label; unlabeled ones bind inside
+					ast.Inspect(y, func(z ast.Node) bool {
+						if b, ok := z.(*ast.BranchStmt); ok && (b.Label != nil || b.Tok == token.GOTO) {
+							found = true
+						}
+						return !found
+					})
+					return false
+				}
+			}
+			if b, ok := y.(*ast.BranchStmt); ok && (b.Tok == token.BREAK || b.Tok == token.FALLTHROUGH || b.Tok == token.GOTO) {
+				found = true
+			}
+			if _, ok := y.(*ast.LabeledStmt); ok {
+				found = true
+			}
+			return !found
+		})
+	}
+	visit(n, true)
+	return found
+}
+
+func pureTag(e ast.Expr) bool {
+	switch x := unparen(e).(type) {
+	case *ast.Ident:
+		return true
+	case *ast.SelectorExpr:
+		return pureTag(x.X)
+	case *ast.BasicLit:
+		return true
+	}
+	return false
+}
+
+func probeSwitchToIf(p *Prog) (map[string][]byte, int, error) {
+	perFile := map[string][]textEdit{}
+	src := map[string][]byte{}
+	n := 0
+	var done [][2]token.Pos // statements already replaced as a whole: nothing inside them is edited again
+	inside := func(x ast.Node) bool {
+		for _, d := range done {
+			if d[0] <= x.Pos() && x.End() <= d[1] {
+				return true
+			}
+		}
+		return false
+	}
+	for _, f := range p.sortedFiles() {
+		ast.Inspect(f, func(x ast.Node) bool {
+			bl, ok := x.(*ast.BlockStmt)
+			if !ok {
+				return true
+			}
+			for _, st := range bl.List {
+				sw, ok := st.(*ast.SwitchStmt)
+				if !ok || inside(sw) || sw.Init != nil || hasLooseBreak(sw.Body) || len(sw.Body.List) == 0 {
+					continue
+				}
+				if sw.Tag != nil && !pureTag(sw.Tag) {
+					continue
+				}
+				tagT := ""
+				if sw.Tag != nil {
+					tagT, _ = nodeText(p, src, sw.Tag)
+				}
+				var b strings.Builder
+				var def *ast.CaseClause
+				first, bad := true, false
+				for _, c := range sw.Body.List {
+					cc := c.(*ast.CaseClause)
+					if cc.List == nil {
+						def = cc
+						continue
+					}
+					var conds []string
+					for _, e := range cc.List {
+						t, err := nodeText(p, src, e)
+						if err != nil {
+							bad = true
+						}
+						if sw.Tag != nil {
+							t = tagT + " == (" + t + ")"
+						} else {
+							t = "(" + t + ")"
+						}
+						conds = append(conds, t)
+					}
+					if !first {
+						b.WriteString(" else ")
+					}
+					first = false
+					b.WriteString("if " + strings.Join(conds, " || ") + " {\n")
+					for _, s := range cc.Body {
+						t, err := nodeText(p, src, s)
+						if err != nil {
+							bad = true
+						}
+						b.WriteString(t + "\n")
+					}
+					b.WriteString("}")
+				}
+				if bad || first {
+					continue // only a default clause, or unreadable
+				}
+				// the default clause must be last in evaluation: it is, whatever its position
+				if def != nil {
+					b.WriteString(" else {\n")
+					for _, s := range def.Body {
+						t, _ := nodeText(p, src, s)
+						b.WriteString(t + "\n")
+					}
+					b.WriteString("}")
+				}
+				tf, name := p.fileOf(sw.Pos())
+				perFile[name] = append(perFile[name], textEdit{tf.Offset(sw.Pos()), tf.Offset(sw.End()), b.String()})
+				done = append(done, [2]token.Pos{sw.Pos(), sw.End()})
+				n++
+			}
+			return true
+		})
+	}
+	ov, err := finishOverlay(p, perFile)
+	return ov, n, err
+}
+
+func probeIfToSwitch(p *Prog) (map[string][]byte, int, error) {
+	perFile := map[string][]textEdit{}
+	src := map[string][]byte{}
+	n := 0
+	var done [][2]token.Pos // statements already replaced as a whole: nothing inside them is edited again
+	inside := func(x ast.Node) bool {
+		for _, d := range done {
+			if d[0] <= x.Pos() && x.End() <= d[1] {
+				return true
+			}
+		}
+		return false
+	}
+	for _, f := range p.sortedFiles() {
+		ast.Inspect(f, func(x ast.Node) bool {
+			bl, ok := x.(*ast.BlockStmt)
+			if !ok {
+				return true
+			}
+			for _, st := range bl.List {
+				is, ok := st.(*ast.IfStmt)
+				if !ok || inside(is) || is.Init != nil || is.Else == nil {
+					continue
+				}
+				// collect the chain
+				type arm struct {
+					cond string
+					body *ast.BlockStmt
+				}
+				var arms []arm
+				var tail *ast.BlockStmt
+				bad := false
+				for cur := is; cur != nil; {
+					if cur.Init != nil || hasLooseBreak(cur.Body) {
+						bad = true
+						break
+					}
+					c, err := nodeText(p, src, cur.Cond)
+					if err != nil {
+						bad = true
+						break
+					}
+					arms = append(arms, arm{c, cur.Body})
+					switch e := cur.Else.(type) {
+					case *ast.IfStmt:
+						cur = e
+					case *ast.BlockStmt:
+						if hasLooseBreak(e) {
+							bad = true
+						}
+						tail = e
+						cur = nil
+					default:
+						cur = nil
+					}
+				}
+				if bad || len(arms) < 2 {
+					continue
+				}
+				var b strings.Builder
+				b.WriteString("switch {\n")
+				for _, a := range arms {
+					b.WriteString("case " + a.cond + ":\n")
+					for _, s := range a.body.List {
+						t, _ := nodeText(p, src, s)
+						b.WriteString(t + "\n")
+					}
+				}
+				if tail != nil {
+					b.WriteString("default:\n")
+					for _, s := range tail.List {
+						t, _ := nodeText(p, src, s)
+						b.WriteString(t + "\n")
+					}
+				}
+				b.WriteString("}")
+				tf, name := p.fileOf(is.Pos())
+				perFile[name] = append(perFile[name], textEdit{tf.Offset(is.Pos()), tf.Offset(is.End()), b.String()})
+				done = append(done, [2]token.Pos{is.Pos(), is.End()})
+				n++
+			}
+			return true
+		})
+	}
+	ov, err := finishOverlay(p, perFile)
+	return ov, n, err
+}
+
+// ---- split-and ----
+
+func probeSplitAnd(p *Prog) (map[string][]byte, int, error) {
+	perFile := map[string][]textEdit{}
+	src := map[string][]byte{}
+	n := 0
+	for _, f := range p.sortedFiles() {
+		ast.Inspect(f, func(x ast.Node) bool {
+			bl, ok := x.(*ast.BlockStmt)
+			if !ok {
+				return true
+			}
+			for _, st := range bl.List {
+				is, ok := st.(*ast.IfStmt)
+				if !ok || is.Else != nil {
+					continue
+				}
+				be, ok := unparen(is.Cond).(*ast.BinaryExpr)
+				if !ok || be.Op != token.LAND {
+					continue
+				}
+				l, e1 := nodeText(p, src, be.X)
+				rr, e2 := nodeText(p, src, be.Y)
+				if e1 != nil || e2 != nil {
+					continue
+				}
+				tf, name := p.fileOf(is.Pos())
+				perFile[name] = append(perFile[name],
+					textEdit{tf.Offset(is.Cond.Pos()), tf.Offset(is.Cond.End()), l + " {\nif " + rr},
+					textEdit{tf.Offset(is.End()), tf.Offset(is.End()), "\n}"})
+				n++
+			}
+			return true
+		})
+	}
+	ov, err := finishOverlay(p, perFile)
+	return ov, n, err
+}
 
 // devProbes: every probe against every property, one load per probe.
 func devProbes(repo, verif string) int {
